@@ -168,21 +168,40 @@ func parseRace(txt string) (funcs [2]string, files [2]string, ok bool) {
 	return funcs, files, k == 2
 }
 
+// isLibFrame: the access is in a non-test source file of the library (decided by the file,
+// because generic library functions instantiated by the harness carry the harness package
+// in their symbol name).
 func isLibFrame(fn, file string) bool {
-	if strings.Contains(fn, "/zzverif/") || strings.Contains(file, "/zzverif/") {
+	path := strings.SplitN(file, ":", 2)[0]
+	if strings.Contains(fn, "/zzverif/") || strings.Contains(path, "/zzverif/") {
 		return false
 	}
-	if !strings.HasPrefix(fn, "github.com/aperturerobotics/util/") {
+	if strings.HasSuffix(path, "_test.go") {
 		return false
 	}
-	if strings.HasSuffix(strings.SplitN(file, ":", 2)[0], "_test.go") {
-		return false
+	root := os.Getenv("VERIF_REPO")
+	if root == "" {
+		root = "/repo"
 	}
-	return true
+	if strings.HasPrefix(path, root+"/") {
+		return true
+	}
+	return strings.HasPrefix(fn, "github.com/aperturerobotics/util/")
 }
 
 func shortFn(fn string) string {
 	fn = strings.TrimPrefix(fn, "github.com/aperturerobotics/util/")
+	if strings.HasPrefix(fn, "verifharness/") {
+		// generic library function instantiated in the harness: keep the library identifiers only
+		var keep []string
+		for _, tok := range strings.Split(fn[strings.LastIndex(fn, "/")+1:], ".") {
+			if tok == "scn" || tok == "init" || regexp.MustCompile(`^(func)?\d+$`).MatchString(tok) {
+				continue
+			}
+			keep = append(keep, tok)
+		}
+		fn = strings.Join(keep, ".")
+	}
 	// strip generic instantiation noise and closure numbering
 	fn = regexp.MustCompile(`\[[^\]]*\]`).ReplaceAllString(fn, "")
 	fn = regexp.MustCompile(`\.func\d+(\.\d+)*$`).ReplaceAllString(fn, ".func")
@@ -294,6 +313,14 @@ func (m *master) scenarios(only string) []*scnRun {
 			// race mode explores one preemption less than the functional check (it is ~5x slower)
 			if b.PB > 1 && m.tier != "thorough" {
 				b.PB = 1
+			}
+			if m.tier == "thorough" {
+				if b.PB > 2 {
+					b.PB = 2
+				}
+				if b.Cap == 0 || b.Cap > 3000000 {
+					b.Cap = 3000000
+				}
 			}
 		}
 		if b.Cap == 0 {
@@ -691,6 +718,12 @@ func (m *master) run(evPath, knownPath, cxdir, only string, pbOver int) int {
 
 func raceKey(fn [2]string, fl [2]string) string {
 	a, b := shortFn(fn[0]), shortFn(fn[1])
+	if strings.HasPrefix(fn[0], "verifharness/") {
+		a = shortPath(strings.SplitN(fl[0], ":", 2)[0]) + ":" + a
+	}
+	if strings.HasPrefix(fn[1], "verifharness/") {
+		b = shortPath(strings.SplitN(fl[1], ":", 2)[0]) + ":" + b
+	}
 	if a > b {
 		a, b = b, a
 	}
